@@ -12,6 +12,7 @@ import gen_lean  # noqa: E402
 
 
 def main():
+    os.environ["VERIF_GEN_WIRE"] = "1"     # setup writes EVERY generated file (gen_wire otherwise only writes on C02 runs)
     gen_lean.generate_all()
     man = json.load(open(os.path.join(common.VERIF, "MANIFEST.json")))
     targets = ["FlexModel.Audit"]
